@@ -38,6 +38,16 @@ def check(ctx, cfg):
     r1(ctx, cfg)
     r1_closure(ctx, cfg)
     r3(ctx, cfg)
+    r4(ctx, cfg)
+
+
+def r4(ctx, cfg):
+    """premise shared with C06: "observes everything that completed earlier and nothing rolled back" needs the
+    transaction view to answer reads from its own pending writes first: every set/remove is recorded in the overlay's
+    read view (dual recording) and the point lookup consults it before the base"""
+    from rules import C06
+    C06.r2(ctx, cfg, R="C10.R4")
+    C06.r4(ctx, cfg, R="C10.R4")
 
 
 def _storage_inputs(inputs):
